@@ -295,7 +295,26 @@ def g_variational(rng):
             "leaves": {"z": "real", "p.scale": "positive", "lik.scale": "positive", "q.loc": "real", "q.scale": "positive"}, "derived": [], "tensors": {}}
 
 
-GRAPHS = {"variational": g_variational, "time-plain": g_time_plain, "unrooted": g_unrooted, "time-ratio": g_time_ratio, "time-shift": g_time_shift, "general": g_general, "distributions": g_distributions}
+def g_time_flexible(rng):
+    """FlexibleTimeTreeModel whose internal heights are a TransformedParameter over the increment transform that refers back to the
+    same tree model (the layout of the repository's own node-height tests): tree <-> parameter notify each other"""
+    n = 4
+    names = ["t%d" % i for i in range(n)]
+    dates = {nm: 0.0 for nm in names}
+    spec = [taxa(names, dates), alignment(small_alignment(rng, names)),
+            {"id": "tree", "type": "FlexibleTimeTreeModel", "newick": "((t0,t1),(t2,t3));", "taxa": "taxa",
+             "internal_heights": {"id": "tree.heights", "type": "TransformedParameter", "transform": "torchtree.evolution.tree_height_transform.DifferenceNodeHeightTransform",
+                                  "parameters": {"tree_model": "tree"}, "x": P("tree.shifts", [1.0, 1.5, 0.7])}},
+            {"id": "clock", "type": "StrictClockModel", "tree_model": "tree", "rate": P("clock.rate", [0.1])},
+            {"id": "like", "type": "TreeLikelihoodModel", "tree_model": "tree", "site_model": {"id": "site", "type": "ConstantSiteModel"},
+             "substitution_model": {"id": "sm", "type": "JC69"}, "branch_model": "clock", "site_pattern": {"id": "sp", "type": "SitePattern", "alignment": "aln"}},
+            {"id": "coal", "type": "ConstantCoalescentModel", "tree_model": "tree", "theta": P("coal.theta", [3.0])},
+            {"id": "joint", "type": "JointDistributionModel", "distributions": ["like", "coal"]}]
+    return {"name": "time-flexible", "spec": spec, "evals": ["like", "coal", "joint"],
+            "leaves": {"tree.shifts": "positive", "clock.rate": "positive", "coal.theta": "positive"}, "derived": ["tree.heights"], "tensors": {"tree": "branch_lengths()"}}
+
+
+GRAPHS = {"time-flexible": g_time_flexible, "variational": g_variational, "time-plain": g_time_plain, "unrooted": g_unrooted, "time-ratio": g_time_ratio, "time-shift": g_time_shift, "general": g_general, "distributions": g_distributions}
 
 
 DETERMINISTIC = [k for k in GRAPHS if k != "variational"]  # graphs whose evaluations draw no random numbers (C10, C12)
